@@ -245,6 +245,29 @@ def c02(ck):
                 s.add("decodex", r, coin, lid, 1)
                 s.add("free", 1)
             ck.add(Exec("swap-%s-%d" % (lid, rep), s.lines))
+    # the one check word that validates does validate - through both decoders - and a substituted first word
+    # does not, whichever other lists know that word too
+    for lid in LANG_IDS:
+        L = codec.lang(lid)
+        s = Script()
+        s.add("enable", 7)
+        for rep in range(16 if quick else 200):
+            coin = rng.choice(COINS_BOUNDARY + [rng.below(2048)])
+            idx = rand_idx(rng, features=rng.choice([0, 16]), coin=coin)
+            r = s.string(codec.phrase(lid, idx))
+            s.add("decode", r, coin, 1)
+            s.add("free", 1)
+            s.add("decodex", r, coin, lid, 1)
+            s.add("free", 1)
+            for pos in (0, 1, rng.below(16)):
+                w = list(idx)
+                w[pos] = rng.choice([w[pos] ^ 1, (w[pos] + 1) % 2048, rng.below(2048)])
+                if w[pos] == idx[pos]:
+                    continue
+                r = s.string(codec.phrase(lid, w))
+                s.add("decode", r, coin, 1)
+                s.add("free", 1)
+        ck.add(Exec("valid-and-first-%s" % lid, s.lines))
     # erasure recovery: exactly one word validates at a missing position
     for rep in range(2 if quick else 8):
         lid = "en" if rep == 0 else rng.choice(LANG_IDS)
@@ -703,6 +726,18 @@ def c08(ck):
     for lid in LANG_IDS:
         for part, grp in enumerate(chunked(toks[lid], 2000)):
             ck.add(Exec("tokens-%s-%d" % (lid, part), ["find %s %s" % (lid, hx(t)) for t in grp if 0 < len(t) < 200]))
+    # mass sweep: pseudo-random tokens over each list's own characters; the library logs every token it
+    # accepts and the specification decides whether the published rule allows it (a lookup accelerator with
+    # false positives - hash index, filter - accepts tokens the rule rejects)
+    for lid in LANG_IDS:
+        L = codec.lang(lid)
+        wide = max(len(chars_of(w)) for w in L["wb"]) <= 2      # lists of one- or two-character words
+        if wide:
+            parts, count, lo, hi = (2 if quick else 16), (1 << 17 if quick else 1 << 20), 2, 4
+        else:
+            parts, count, lo, hi = 1, (1 << 14 if quick else 1 << 17), 1, 9
+        for part in range(parts):
+            ck.add(Exec("sweep-%s-%d" % (lid, part), ["findsweep %s %d %d %d %d" % (lid, ck.seed * 1000 + part, count, lo, hi)]))
     # whole phrases through the real normaliser: an independent variant per position
     for lid in LANG_IDS:
         L = codec.lang(lid)
@@ -934,7 +969,14 @@ def c12(ck):
             s.add("env", "mask=" + hx(biased_mask(rng, k)))
             k += 1
             r = s.string(pw1 if step % 2 == 0 or rng.chance(1, 2) else pw2)
+            # the operation has no way to report a failure, so it has none: whatever the allocator does
+            # (the pinned code does not allocate here at all), the seed is toggled
+            starved = rng.chance(1, 4)
+            if starved:
+                s.add("env", "fail=%d" % rng.choice([1, 1, 2]))
             s.add("crypt", 0, r)
+            if starved:
+                s.add("env", "fail=0")
             if rng.chance(1, 2):
                 s.add("crypt", 0, r)            # same password, same mask: must restore bit for bit
                 s.add("crypt", 0, r)
@@ -1183,29 +1225,42 @@ def c09(ck):
     ck.model("TheoremsSplit.tla", "TheoremsSplit_quick.cfg" if quick else "TheoremsSplit_thorough.cfg")
     strs = structured_strings(rng, 500 if quick else 12000)
     strs += [codec.phrase("es", codec.words_of(bytes(19), 0, 0)), b"impo sort usua cabi venu nobl oliv clim cont barr marc auto prod vaca torn fati"]
-    for n, grp in enumerate(chunked(strs, 12)):
-        s = Script()
-        s.add("enable", rng.choice([0, 7]))
-        for st in grp:
-            if len(st) > 60000 or b"\x00" in st:
-                continue
+    # Two executions per string, so that a deviation of one decoder cannot hide behind the other: (a) automatic
+    # first, then every explicit language - each explicit outcome is compared with the automatic one; (b) every
+    # explicit language first, then automatic - the automatic outcome is compared with the explicit one of the
+    # language the specification says is the only one that recognises all tokens.
+    for n, st in enumerate(strs):
+        if len(st) > 60000 or b"\x00" in st:
+            continue
+        mask = rng.choice([0, 7])
+        coin = rng.choice([0, 0, 1, 2047])
+        faulty = rng.chance(1, 3)
+        for order in "ab":
+            s = Script()
+            s.add("enable", mask)
             r = s.string(st)
-            coin = rng.choice([0, 0, 1, 2047])
-            s.add("decode", r, coin, 1)
-            s.add("free", 1)
-            s.add("decode", r, coin, 1, "nolang")          # the caller may pass no language pointer: same answers
-            s.add("free", 1)
-            for lid in LANG_IDS:
-                s.add("decodex", r, coin, lid, 1)
-                s.add("free", 1)
-            if rng.chance(1, 3):
-                # precedence with a failing allocator: checksum before memory, memory before unsupported
-                s.add("env", "fail=1")
-                s.add("decode", r, coin, 1)
-                for lid in LANG_IDS:             # and the two decoders must agree under that allocator too
+
+            def explicit():
+                for lid in LANG_IDS:
                     s.add("decodex", r, coin, lid, 1)
-                s.add("env", "fail=0")
-        ck.add(Exec("strings-%d" % n, s.lines))
+                    s.add("free", 1)
+
+            def automatic():
+                s.add("decode", r, coin, 1)
+                s.add("free", 1)
+                s.add("decode", r, coin, 1, "nolang")          # the caller may pass no language pointer: same answers
+                s.add("free", 1)
+            for f in ([0, 1] if faulty else [0]):
+                # precedence with a failing allocator: checksum before memory, memory before unsupported
+                s.add("env", "fail=%d" % f)
+                if order == "a":
+                    automatic()
+                    explicit()
+                else:
+                    explicit()
+                    automatic()
+            s.add("env", "fail=0")
+            ck.add(Exec("string-%d%s" % (n, order), s.lines))
     ck.validate()
     ck.require_outcomes(["Decode:0", "Decode:1", "Decode:2", "Decode:3", "Decode:7", "Decode:6", "DecodeX:2", "DecodeX:0"])
     ck.assumptions += ["the relation between automatic and explicit decoding is a TLC-checked theorem of the specification "
